@@ -104,7 +104,8 @@ def methods_of(obj):
 
 def run_case(case):
     """case = [kind, ansi, method, verbosity, flags, quiet, prefill] -> violation or None"""
-    kind, ansi, meth, verbosity, flags, quiet, prefill = case
+    kind, ansi, meth, verbosity, flags, quiet, prefill = case[:7]
+    split = len(case) > 7 and case[7]
     recv, streams, is_section = receiver_kinds()[kind](ansi)
     outs = [recv] if not hasattr(recv, "error_output") else [recv.output, recv.error_output]
     # sections are pre-filled (while loud) so that clear/overwrite have something to act on
@@ -114,6 +115,12 @@ def run_case(case):
             o.write_line("old")
     recv.set_verbosity(verbosity)
     recv.set_quiet(quiet)
+    if split:
+        # the output this method does NOT write to gets the opposite settings: the gate that decides is the one of
+        # the output the text goes to, whatever the other output (or the IO's own is_quiet()/verbosity view) says
+        other = recv.output if meth.startswith("error") else recv.error_output
+        other.set_quiet(not quiet)
+        other.set_verbosity(4 if verbosity < 4 else 0)
     before = [s.fetch() for s in streams]
     fn = getattr(recv, meth)
     params = inspect.signature(fn).parameters
@@ -133,7 +140,7 @@ def run_case(case):
         should = False  # nothing to clear / plain outputs ignore clear: must stay silent
     if wrote != should:
         side = "leak" if wrote else "lost"
-        sig = "%s:%s.%s:%s" % (side, "section" if is_section else "plain-recv", meth, "ansi" if ansi else "plain")
+        sig = "%s:%s.%s:%s%s" % (side, "section" if is_section else "plain-recv", meth, "ansi" if ansi else "plain", ":other-output-differs" if split else "")
         return report.viol(sig, "%s.%s(flags=%r) at verbosity %d quiet=%s ansi=%s: wrote=%s, gate says %s" % (
             kind, meth, flags, verbosity, quiet, ansi, wrote, should), case, should, {"wrote": wrote, "delta": [a[len(b):] if a.startswith(b) else a for a, b in zip(after, before)]})
     return None
@@ -151,6 +158,8 @@ def cases():
                     if meth == "clear" and not pf and not is_section:
                         continue
                     out.append([kind, ansi, meth, v, f, q, pf])
+                    if hasattr(recv, "error_output") and meth != "clear":
+                        out.append([kind, ansi, meth, v, f, q, pf, True])
     return out
 
 
